@@ -13,8 +13,8 @@ extern "C" const char *harness_id() { return "C05"; }
 size_t harness_max_len() { return 400; }
 
 // ---- instrumented user rules ------------------------------------------------------------------------
-enum Outcome { O_OK = 0, O_NA_GEN2 = 1, O_NA_NONE = 2, O_FAIL = 3, O_ERR_NA = 4, O_ERR_OK = 5, O_ERR_FAIL = 6, O_COUNT = 7 };
-static const char *kOutName[] = {"OK", "NA", "NA0", "FAIL", "ERR", "ERRok", "ERRfail"};
+enum Outcome { O_OK = 0, O_NA_GEN2 = 1, O_NA_NONE = 2, O_FAIL = 3, O_ERR_NA = 4, O_ERR_OK = 5, O_ERR_FAIL = 6, O_SILENT = 7 /* returns KSI_OK without writing a verdict: the engine's per-rule preset (inconclusive, GEN-2) stands */, O_COUNT = 8 };
+static const char *kOutName[] = {"OK", "NA", "NA0", "FAIL", "ERR", "ERRok", "ERRfail", "silent"};
 static const int kMaxRules = 256;
 static int g_outcome[kMaxRules];
 static std::vector<int> g_trace;
@@ -32,6 +32,7 @@ template <int I> static int ruleFn(KSI_VerificationContext *, KSI_RuleVerificati
     case O_FAIL: r->resultCode = KSI_VER_RES_FAIL; r->errorCode = failCode(I); return KSI_OK;
     case O_ERR_NA: r->resultCode = KSI_VER_RES_NA; r->errorCode = KSI_VER_ERR_GEN_2; return errCode(I);
     case O_ERR_OK: r->resultCode = KSI_VER_RES_OK; r->errorCode = KSI_VER_ERR_NONE; return errCode(I);
+    case O_SILENT: return KSI_OK;
     default: r->resultCode = KSI_VER_RES_FAIL; r->errorCode = failCode(I); return errCode(I);
     }
 }
@@ -56,7 +57,7 @@ static bool refElem(const Node &n, Eval &ev, std::vector<int> &trace) {
         trace.push_back(n.id); ev.any = true; ev.lastRule = n.id; int o = g_outcome[n.id];
         switch (o) {
         case O_OK: ev.rc = 0; ev.errorCode = KSI_VER_ERR_NONE; break;
-        case O_NA_GEN2: ev.rc = 1; ev.errorCode = KSI_VER_ERR_GEN_2; break;
+        case O_NA_GEN2: case O_SILENT: ev.rc = 1; ev.errorCode = KSI_VER_ERR_GEN_2; break;
         case O_NA_NONE: ev.rc = 1; ev.errorCode = KSI_VER_ERR_NONE; break;
         case O_FAIL: ev.rc = 2; ev.errorCode = failCode(n.id); break;
         default: ev.error = true; ev.errRet = errCode(n.id); return true;
@@ -154,12 +155,12 @@ void harness_case(Dec &d, Case &c) {
     unsigned np = 1 + (d.pick(3) == 0 ? 0 : d.pick(4)); int nextId = 0; std::vector<PolicyModel> chain;
     for (unsigned i = 0; i < np; i++) { PolicyModel pm; pm.rules = genList(d, 0, nextId, 40 * (int)(i + 1) < kMaxRules ? 40 * (int)(i + 1) : kMaxRules - 1); chain.push_back(pm); }
     // outcomes: biased so that deep evaluation happens (mostly OK / NA), sometimes FAIL / error
-    for (int i = 0; i < nextId && i < kMaxRules; i++) { unsigned r = d.pick(16); g_outcome[i] = r < 7 ? O_OK : r < 10 ? O_NA_GEN2 : r < 12 ? O_NA_NONE : r < 14 ? O_FAIL : r == 14 ? O_ERR_NA : (d.flag() ? O_ERR_OK : O_ERR_FAIL); }
+    for (int i = 0; i < nextId && i < kMaxRules; i++) { unsigned r = d.pick(16); g_outcome[i] = r < 7 ? O_OK : r == 9 ? O_SILENT : r < 10 ? O_NA_GEN2 : r < 12 ? O_NA_NONE : r < 14 ? O_FAIL : r == 14 ? O_ERR_NA : (d.flag() ? O_ERR_OK : O_ERR_FAIL); }
     std::string s; int comp = 0, nonOk = 0, maxd = 0;
     for (auto &p : chain) { s += "{" + show(p.rules) + "}"; comp += countType(p.rules, true); int dd = depthOf(p.rules); if (dd > maxd) maxd = dd; }
     for (int i = 0; i < nextId; i++) if (g_outcome[i] != O_OK) nonOk++;
     c.desc = s; c.nontrivial = comp >= 1 && nonOk >= 1;
-    c.cls("chain-length:" + num((long long)np - 1)); c.cls("depth:" + num(maxd));
+    c.cls("chain-length:" + num((long long)np - 1)); c.cls("depth:" + num(maxd)); for (int i = 0; i < nextId; i++) if (g_outcome[i] == O_SILENT) { c.cls("rule-without-verdict"); break; }
     runChain(c, chain);
 }
 
@@ -202,14 +203,14 @@ void harness_exhaustive(int shard, int nshards) {
     // quick: <= 3 basic rules at depth <= 3, 4 at depth <= 2; thorough: <= 4 at depth <= 3, 5 at depth <= 2
     struct Dom { int b, D; }; std::vector<Dom> doms;
     if (tier()) doms = {{1, 3}, {2, 3}, {3, 3}, {4, 3}, {5, 2}}; else doms = {{1, 3}, {2, 3}, {3, 3}, {4, 2}};
-    uint64_t trees = 0, evals = 0; bool stop = false; static const int five[] = {O_OK, O_NA_GEN2, O_NA_NONE, O_FAIL, O_ERR_NA};
-    for (auto &dm : doms) { if (stop) break; const ListSet &ls = listsOf(dm.b, dm.D); uint64_t total = 1; for (int i = 0; i < dm.b; i++) total *= 5;
+    uint64_t trees = 0, evals = 0; bool stop = false; static const int five[] = {O_OK, O_NA_GEN2, O_NA_NONE, O_FAIL, O_ERR_NA, O_SILENT}; /* the sixth (silent) outcome only for trees of up to three rules and for the fallback chains */
+    for (auto &dm : doms) { if (stop) break; const ListSet &ls = listsOf(dm.b, dm.D); const unsigned nout = dm.b <= 3 ? 6 : 5; uint64_t total = 1; for (int i = 0; i < dm.b; i++) total *= nout;
         for (auto &x : ls) { if (stop) break; trees++; if ((int)(trees % (uint64_t)nshards) != shard) continue;
-            for (uint64_t a = 0; a < total && !stop; a++) { Bytes enc; enc.push_back((uint8_t)x.first); enc.insert(enc.end(), x.second.begin(), x.second.end()); enc.push_back(0xfe); uint64_t v = a; for (int i = 0; i < dm.b; i++) { enc.push_back((uint8_t)five[v % 5]); v /= 5; } evals++; if (vf::runExh(enc)) stop = true; } } }
+            for (uint64_t a = 0; a < total && !stop; a++) { Bytes enc; enc.push_back((uint8_t)x.first); enc.insert(enc.end(), x.second.begin(), x.second.end()); enc.push_back(0xfe); uint64_t v = a; for (int i = 0; i < dm.b; i++) { enc.push_back((uint8_t)five[v % nout]); v /= nout; } evals++; if (vf::runExh(enc)) stop = true; } } }
     // all fallback chains of 1..4 single-rule policies x 5 outcomes
     uint64_t chains = 0;
-    for (int np = 1; np <= 4 && !stop; np++) { uint64_t total = 1; for (int i = 0; i < np; i++) total *= 5;
-        for (uint64_t a = 0; a < total && !stop; a++) { chains++; if ((int)(chains % (uint64_t)nshards) != shard) continue; Bytes enc; for (int i = 0; i < np; i++) { enc.push_back(1); enc.push_back(0); } enc.push_back(0xfe); uint64_t v = a; for (int i = 0; i < np; i++) { enc.push_back((uint8_t)five[v % 5]); v /= 5; } if (vf::runExh(enc)) stop = true; } }
-    if (shard == 0) { vf::stats().exhaustive[tier() ? "rule trees: <=4 basic rules depth<=3, 5 basic rules depth<=2 (trees)" : "rule trees: <=3 basic rules depth<=3, 4 basic rules depth<=2 (trees)"] = trees; vf::stats().exhaustive["fallback chains of 0..3 fallbacks of single-rule policies x 5 outcomes"] = chains; }
+    for (int np = 1; np <= 4 && !stop; np++) { uint64_t total = 1; for (int i = 0; i < np; i++) total *= 6;
+        for (uint64_t a = 0; a < total && !stop; a++) { chains++; if ((int)(chains % (uint64_t)nshards) != shard) continue; Bytes enc; for (int i = 0; i < np; i++) { enc.push_back(1); enc.push_back(0); } enc.push_back(0xfe); uint64_t v = a; for (int i = 0; i < np; i++) { enc.push_back((uint8_t)five[v % 6]); v /= 6; } if (vf::runExh(enc)) stop = true; } }
+    if (shard == 0) { vf::stats().exhaustive[tier() ? "rule trees: <=4 basic rules depth<=3, 5 basic rules depth<=2 (trees)" : "rule trees: <=3 basic rules depth<=3, 4 basic rules depth<=2 (trees)"] = trees; vf::stats().exhaustive["fallback chains of 0..3 fallbacks of single-rule policies x 6 outcomes"] = chains; }
     vf::stats().exhaustive["tree x outcome-assignment evaluations"] += evals;
 }
